@@ -545,7 +545,7 @@ Definition trace_recover_cleanup (deleted : list fname) : list fsop := map Unlin
     version the VOLATILE [current] points to ([None] = no [current]), and whether the
     (single) publishing rename already happened.  Obligations:
     - every file named by [dv] or [vv] (+ [current] itself) is *protected*: no op may
-      create/truncate, write, rename or unlink it, nor write through an alias of its inode;
+      create/truncate, write, rename or unlink it;
     - the only op allowed on [current] is ONE [Rename (TempFile k) Current], and only if
       the temp file is fully fsynced, denotes a version [v1], and every file named by
       [v1] (v<v1>, its tables, its blob files) is *stable*: durable directory entry =
@@ -587,18 +587,14 @@ Definition touched (op : fsop) : list fname :=
   | Mkdir _ | FsyncFile _ | FsyncDir _ => []
   end.
 
-(** [g] is bound (volatile) to the inode of protected [f] (volatile or durable binding) *)
-Definition aliases (s : fsstate) (f g : fname) : bool :=
-  match vns s g with
-  | Some j => opt_is j (vns s f) || opt_is j (dns s f)
-  | None => false
-  end.
+(** an op is safe iff it touches no protected NAME.  (No inode-alias check is needed:
+    the model has no hard links; Proofs/Fs.v carries injectivity of the volatile
+    namespace as part of the invariant.) *)
+Definition safe_name (P : list fname) (g : fname) : bool :=
+  negb (existsb (fname_eqb g) P).
 
-Definition safe_name (s : fsstate) (P : list fname) (g : fname) : bool :=
-  forallb (fun f => negb (fname_eqb f g) && negb (aliases s f g)) P.
-
-Definition safe_op (s : fsstate) (P : list fname) (op : fsop) : bool :=
-  forallb (safe_name s P) (touched op).
+Definition safe_op (P : list fname) (op : fsop) : bool :=
+  forallb (safe_name P) (touched op).
 
 Definition pstate := (option N * option N * bool)%type.
 
@@ -643,7 +639,7 @@ Definition proto_step (o : oracle) (s : fsstate) (ps : pstate) (op : fsop) : opt
       | None => None
       end
   | FsyncDir Root => Some (vv, vv, pub)
-  | _ => if safe_op s (protected o ps) op then Some ps else None
+  | _ => if safe_op (protected o ps) op then Some ps else None
   end.
 
 Fixpoint proto_run (o : oracle) (s : fsstate) (ps : pstate) (tr : list fsop)
@@ -706,4 +702,20 @@ Definition crash_atomic_check (o : oracle) (s : fsstate) (tr : list fsop) : bool
               (all_prefix_summaries o s tr) &&
       forallb (fun i => rsummary_eqb (summary (recover_dir o i)) after) (crash_images sf)
   | None => false
+  end.
+
+(** Decidable part of "the disk is consistent and its [current] denotes [ov]"
+    (the rest - bounded inode numbers, no hard links - holds for every state produced
+    by [run_fs fs_init]; Proofs/Fs.v: [disk_okb_sound], [run_fs_init_wf]). *)
+Definition disk_okb (o : oracle) (s : fsstate) (ov : option N) : bool :=
+  opt_eqb (dns s Current) (vns s Current) &&
+  match cur_of o s (dns s) with
+  | Some ov' => opt_eqb ov' ov
+  | None => false
+  end &&
+  match ov with
+  | Some v =>
+      match version_contents o v with Some _ => true | None => false end &&
+      forallb (stableb o s) (pnames o v)
+  | None => true
   end.
